@@ -73,7 +73,7 @@ func (e *Engine) mapUpdate(f *frame, x *ssa.MapUpdate) {
 	ref := m.C[0]
 	e.oblige("nil", "assignment to entry in nil map", X.Not(X.Eq(ref, X.Const(0, 32))), x.Pos())
 	if e.frameOn && e.specDepth == 0 && !ref.IsConst() {
-		e.oblige("frame", "map update", X.Ule(e.alloc0, ref), x.Pos())
+		e.oblige("frame", "map update", e.isFresh(e.alloc0, ref), x.Pos())
 	}
 	if v.Clo != nil {
 		v = e.opaqueFunc(v)
